@@ -28,7 +28,8 @@ const (
 )
 
 type aFact struct {
-	idx      int // f_id = idx+1
+	idx      int // index in the table
+	fid      int // f_id: one id per fact hash (INIT and suffrage-confirm facts of the same content share their hash)
 	h, r     int64
 	kind     int
 	variant  int
@@ -38,7 +39,8 @@ type aFact struct {
 }
 
 type aExpel struct {
-	idx        int // e_id = idx+1
+	idx        int // index in the table
+	eid        int // e_id: one id per expel fact hash (the hash covers node, start, end only)
 	target     int
 	start, end int64
 	signers    [][2]int // (node, pub)
@@ -89,6 +91,7 @@ type World struct {
 	facts  []*aFact
 	fkey   map[string]int
 	fhash  map[string]int
+	hashid map[string]int
 	expels []*aExpel
 	ehash  map[string]int
 	vps    []*aVP
@@ -102,7 +105,7 @@ type World struct {
 
 func NewWorld(r *vh.Rand, n int, th10 int, localMember bool) *World {
 	w := &World{r: r, n: n, th10: th10, H: 33, netID: base.NetworkID(r.Bytes(8)),
-		fkey: map[string]int{}, fhash: map[string]int{}, ehash: map[string]int{}, vpid: map[string]int{},
+		fkey: map[string]int{}, fhash: map[string]int{}, hashid: map[string]int{}, ehash: map[string]int{}, vpid: map[string]int{},
 		blk: map[int64]util.Hash{}, prop: map[string]util.Hash{}, addr: map[string]int{}, pubs: map[string]int{},
 		sufs: map[int64][]int{}, rsufs: map[int64]base.Suffrage{}}
 	for i := 0; i < n+2; i++ {
@@ -180,8 +183,14 @@ func (w *World) Expel(target int, start, end int64, signers [][2]int) int {
 	for _, ns := range op.NodeSigns() {
 		e.signers = append(e.signers, [2]int{w.addr[ns.Node().String()], w.pubs[ns.Signer().String()]})
 	}
+	if id, ok := w.hashid["e"+f.Hash().String()]; ok {
+		e.eid = id
+	} else {
+		e.eid = len(w.hashid) + 1
+		w.hashid["e"+f.Hash().String()] = e.eid
+	}
 	w.expels = append(w.expels, e)
-	w.ehash[f.Hash().String()] = e.idx
+	w.ehash[op.Hash().String()] = e.idx
 	return e.idx
 }
 
@@ -227,10 +236,24 @@ func (w *World) Fact(h, r int64, kind, variant int, ex []int) int {
 		real = isaac.NewACCEPTBallotFact(p, w.proposal(h, r, variant), nb, hs)
 	}
 	f := &aFact{idx: len(w.facts), h: h, r: r, kind: kind, variant: variant, ex: ex, real: real}
+	if id, ok := w.hashid[real.Hash().String()]; ok {
+		f.fid = id
+	} else {
+		f.fid = len(w.hashid) + 1
+		w.hashid[real.Hash().String()] = f.fid
+	}
 	w.facts = append(w.facts, f)
 	w.fkey[k] = f.idx
-	w.fhash[real.Hash().String()] = f.idx
+	w.fhash[factKey(real)] = f.idx
 	return f.idx
+}
+
+func factKey(f base.Fact) string {
+	k := "p"
+	if isaac.IsSuffrageConfirmBallotFact(f) {
+		k = "s"
+	}
+	return f.Hash().String() + k
 }
 
 func (w *World) SignFact(node, pub, fact int) aSF {
@@ -309,14 +332,14 @@ func (w *World) Abstract(vp base.Voteproof) *aVP {
 	}
 	a.th10 = int(vp.Threshold().Float64()*10 + 0.5)
 	if m := vp.Majority(); m != nil {
-		i, ok := w.fhash[m.Hash().String()]
+		i, ok := w.fhash[factKey(m)]
 		if !ok {
 			return nil
 		}
 		a.maj = i
 	}
 	for _, sf := range vp.SignFacts() {
-		fi, ok := w.fhash[sf.Fact().Hash().String()]
+		fi, ok := w.fhash[factKey(sf.Fact())]
 		n, ok2 := w.addr[sf.Node().String()]
 		p, ok3 := w.pubs[sf.Signer().String()]
 		if !ok || !ok2 || !ok3 {
@@ -326,7 +349,7 @@ func (w *World) Abstract(vp base.Voteproof) *aVP {
 	}
 	if we, ok := vp.(base.HasExpels); ok {
 		for _, e := range we.Expels() {
-			i, ok := w.ehash[e.Fact().Hash().String()]
+			i, ok := w.ehash[e.Hash().String()]
 			if !ok {
 				return nil
 			}
@@ -407,10 +430,10 @@ func (w *World) tabsC(extra []*aVP) string {
 	for i, f := range w.facts {
 		ex := make([]int64, len(f.ex))
 		for j, e := range f.ex {
-			ex[j] = int64(e + 1)
+			ex[j] = int64(w.expels[e].eid)
 		}
 		k := []string{"KInit", "KSC", "KAccept"}[f.kind]
-		fs[i] = fmt.Sprintf("(mkFact %d %s %s %s)", f.idx+1, spC(f.h, f.r, kindStage(f.kind)), k, vh.ZList(ex))
+		fs[i] = fmt.Sprintf("(mkFact %d %s %s %s)", f.fid, spC(f.h, f.r, kindStage(f.kind)), k, vh.ZList(ex))
 	}
 	es := make([]string, len(w.expels))
 	for i, e := range w.expels {
@@ -418,7 +441,7 @@ func (w *World) tabsC(extra []*aVP) string {
 		for j, s := range e.signers {
 			sg[j] = fmt.Sprintf("(%d, %d)", s[0], s[1])
 		}
-		es[i] = fmt.Sprintf("(mkExpel %d %d %s %s [%s]%%Z)", e.idx+1, e.target, vh.Z(e.start), vh.Z(e.end), strings.Join(sg, "; "))
+		es[i] = fmt.Sprintf("(mkExpel %d %d %s %s [%s]%%Z)", e.eid, e.target, vh.Z(e.start), vh.Z(e.end), strings.Join(sg, "; "))
 	}
 	vs := make([]string, 0, len(w.vps)+len(extra))
 	for _, v := range w.vps {
